@@ -245,6 +245,8 @@ func runLLMNR(w *rt.World, res *hx.Result, realServer, realClient bool) *hx.Viol
 	}
 	timeoutKnob := hx.G(3) // real client: Timeout 2 s (default), 300 ms, 5 s
 	dbgDescribe := hx.G(2) == 0
+	llJunk := [...]int{0, 0, 0, 2, 5, 9}[hx.G(6)]
+	llJunkShape := hx.G(3)
 	jitter := hx.G(3) == 0 // the responder handler answers after it returned, from a timer (RFC 4795 jitter), through the writer it was given
 
 	canaryRan := false
@@ -496,6 +498,33 @@ func runLLMNR(w *rt.World, res *hx.Result, realServer, realClient bool) *hx.Viol
 			raws = append(raws, rc)
 			tasks = append(tasks, rt.GoHarness(fmt.Sprintf("raw-client%d", c), rc.host, func() { llRaw(rc, group) }))
 		}
+	}
+
+	if realServer && llJunk > 0 {
+		// datagrams a responder has no business answering: responses (QR = 1) sent to the group, runts, queries cut
+		// inside the question. The server may log or ignore them; the queries around them are answered as ever.
+		rt.GoHarness("junk-sender", "10.0.1.240", func() {
+			c, err := simnet.ListenUDP("udp4", &net.UDPAddr{})
+			if err != nil {
+				return
+			}
+			defer c.Close()
+			for i := 0; i < llJunk; i++ {
+				var b []byte
+				switch (i + llJunkShape) % 3 {
+				case 0:
+					b = dnsResponse(uint16(0x7800+i), 0x8000, "ghost.corp", net.IP{192, 0, 2, 9})
+				case 1:
+					b = dnsQuery(uint16(0x7800+i), "ghost.corp")[:i%12]
+				case 2:
+					q := dnsQuery(uint16(0x7800+i), "ghost.corp")
+					b = q[:12+(i*5)%(len(q)-12)]
+				}
+				c.WriteToUDP(b, group)
+				rt.SleepUntil(rt.Now() + int64(1+i%3)*1e6)
+			}
+		})
+		rt.Probe(PLLJunk)
 	}
 
 	// ---- stop / close at a chosen time
@@ -947,6 +976,11 @@ func runChallenger(w *rt.World, res *hx.Result) *hx.Violation {
 	lossy := w.Stats.Probes[rt.PDgramDropped] > 0 || w.Stats.TimeSkips > 0 || w.Stats.Probes[rt.PDgramDelayed] > 0 || w.Stats.Probes[rt.PDgramDup] > 0
 	res.NonTrivial = true
 	res.Sample = map[string]any{"system": "nbtns.NameChallenger", "mode": mode, "result": got, "elapsed_s": float64(el) / 1e9}
+	if err != nil && w.Stats.TimeSkips > 0 {
+		// a task stalled for seconds between arming its I/O deadline and the send legitimately gets "i/o timeout"
+		res.Discarded = "challenger stalled across its own I/O deadline"
+		return nil
+	}
 	if err != nil {
 		return &hx.Violation{Class: "client_mismatch", Key: "challenger_error", Msg: err.Error()}
 	}
